@@ -501,6 +501,14 @@ def mkInstance (hd : Head) (impl : String) : Option Inst :=
 
 def run (c : Cache) (op : String) (args : List String) (impl : String) : Option (Cache × String × String) :=
   match op, args with
+  -- `CurveConfig::cofactor_is_one` on a synthetic cofactor (limb list): `value = 1`
+  | "cofone", [ls] => do
+    let l ← parseList? ls
+    let m := match cofactorIsOne l with
+      | .ok b => b01 b
+      | .panic => "panic"
+    some (c, m, if l.isEmpty then (if impl == "panic" then "note:empty-cofactor" else "bad:want=panic")
+                else vs impl (b01 (value l == 1)))
   | "cfg", _ => do
     let hd ← parseHead args
     let I ← mkInstance hd impl
